@@ -8,6 +8,10 @@ mod c01;
 mod c02;
 mod cli;
 mod ledger;
+mod child;
+mod parseobs;
+mod pgen;
+mod c05;
 
 pub struct Opts {
     pub seed: u64,
@@ -23,6 +27,15 @@ fn main() {
     if args.len() < 2 {
         eprintln!("usage: okv <property> [--seed N] [--tier quick|thorough] [--out DIR] [--shards N] [--corpus DIR]");
         std::process::exit(2);
+    }
+    if args[1] == "__child" {
+        // hidden subcommand: run the implementation on a batch of inputs (see child.rs)
+        c05::install_panic_capture();
+        child::child_main(&args[2..], &|mode, input| match mode {
+            "c05" => c05::child_observe(input),
+            _ => "{\"harness_error\":\"unknown mode\"}".to_string(),
+        });
+        return;
     }
     let prop = args[1].to_lowercase();
     let mut o = Opts {
@@ -69,6 +82,7 @@ fn main() {
         "c01" => c01::run(&o),
         "c02" => c02::run(&o, "C02"),
         "c03" => c02::run(&o, "C03"),
+        "c05" => c05::run(&o),
         _ => {
             eprintln!("unknown property {}", prop);
             std::process::exit(2);
